@@ -237,9 +237,10 @@ class kMinPathErrorCycles(walkmodel.AbstractWalkModelDiGraph):
                 raise ValueError(f"trusted_edges_for_safety_percentile must be between 0 and 100.")
 
             # Select edges where the flow_attr value is >= trusted_edges_for_safety_percentile (using self.G)
-            flow_values = [self.G.edges[edge][flow_attr] for edge in self.G.edges() if flow_attr in self.G.edges[edge]]
+            # (only among the edges whose value counts, i.e. not the ignored ones whatever value they carry; and an edge of flow 0 is never trusted, as without the percentile)
+            flow_values = [self.G.edges[edge][flow_attr] for edge in self.G.edges() if flow_attr in self.G.edges[edge] and edge not in self.edges_to_ignore]
             percentile = np.percentile(flow_values, trusted_edges_for_safety_percentile) if flow_values else 0
-            self.trusted_edges_for_safety = list(edge for edge in self.G.edges() if flow_attr in self.G.edges[edge] and self.G.edges[edge][flow_attr] >= percentile)
+            self.trusted_edges_for_safety = list(edge for edge in self.G.edges() if flow_attr in self.G.edges[edge] and self.G.edges[edge][flow_attr] >= percentile and self.G.edges[edge][flow_attr] > 0)
             # Remove from trusted_edges_for_safety the edges in edges_to_ignore
             self.trusted_edges_for_safety = set(edge for edge in self.trusted_edges_for_safety if edge not in self.edges_to_ignore)
             utils.logger.info(f"{__name__}: trusted_edges_for_safety set using using percentile {trusted_edges_for_safety_percentile} = {percentile} to {self.trusted_edges_for_safety}")
